@@ -11,6 +11,117 @@ import vlib
 NAMES = ["a", "b", "ab", "ac", "ba", "c", "abc"]
 CLAUSES = ["*", "*", "a*", "*b", "a", "ab", "a,b", "?b", "b*", "a?", "ab,ac", "c", "*c", "a,ab,abc", "b"]
 FILTERS = ["", "", "", "g2", "l5", "e3", "x", "g5", "l2", "g-1"]
+
+# ---- the filter family (grammar in harness/mirror_h.cpp): ValueExists (field, type code, index), Int32 comparisons (field, index,
+#      operator, operand), And / Or / Xor / Nand trees.  A filter CHANGE draws the new filter one attribute away from the old one
+#      (kind, field name, index, type code, operator, operand, combinator, negation, or the same filter re-sent); the payloads
+#      0..9 separate every such pair (see FillPayload in the harness).
+def f_atom(rng):
+    r = rng.random()
+    if r < 0.5:
+        return ("x", rng.choice("vabc"), rng.choice(["", "", "I", "S"]), rng.choice([0, 0, 0, 1]))
+    return ("n", rng.choice("gle"), rng.choice("vvab"), rng.randrange(-1, 9), rng.choice([0, 0, 0, 1]))
+
+
+def f_random(rng, depth=2):
+    if depth > 0 and rng.random() < 0.35:
+        c = rng.choice("AOXN")
+        return (c, [f_random(rng, depth - 1) for _ in range(1 if c == "N" else rng.choice([2, 2, 3]))])
+    return f_atom(rng)
+
+
+def f_str(f):
+    if f[0] == "x":
+        _, fld, tc, idx = f
+        return "x" + ("" if fld == "v" else fld) + tc + ("i%d" % idx if idx else "")
+    if f[0] == "n":
+        _, op, fld, k, idx = f
+        return op + ("" if fld == "v" else fld) + str(k) + ("i%d" % idx if idx else "")
+    return f[0] + "[" + ".".join(f_str(k) for k in f[1]) + "]"
+
+
+def f_neighbour(rng, f):
+    """a filter that differs from f in exactly one attribute (or f itself now and then)"""
+    r = rng.random()
+    if r < 0.08:
+        return f
+    if r < 0.16:
+        return ("N", [f])                                   # negation
+    if f[0] in "AOXN":
+        c, kids = f
+        if r < 0.40:
+            if c == "N":
+                return kids[0] if len(kids) == 1 else ("A", kids)
+            return (rng.choice([x for x in "AOX" if x != c]), kids)    # combinator
+        i = rng.randrange(len(kids))
+        return (c, kids[:i] + [f_neighbour(rng, kids[i])] + kids[i + 1:])
+    if f[0] == "x":
+        _, fld, tc, idx = f
+        w = rng.choice(["field", "field", "type", "index", "kind"])
+        if w == "field":
+            return ("x", rng.choice([x for x in "vabc" if x != fld]), tc, idx)
+        if w == "type":
+            return ("x", fld, rng.choice([x for x in ["", "I", "S"] if x != tc]), idx)
+        if w == "index":
+            return ("x", fld, tc, 1 - idx if idx in (0, 1) else 0)
+        return ("n", rng.choice("gle"), fld, rng.randrange(0, 8), idx)
+    _, op, fld, k, idx = f
+    w = rng.choice(["field", "op", "operand", "index", "kind"])
+    if w == "field":
+        return ("n", op, rng.choice([x for x in "vab" if x != fld]), k, idx)
+    if w == "op":
+        return ("n", rng.choice([x for x in "gle" if x != op]), fld, k, idx)
+    if w == "operand":
+        return ("n", op, fld, k + rng.choice([-1, 1, 2]), idx)
+    if w == "index":
+        return ("n", op, fld, k, 1 - idx if idx in (0, 1) else 0)
+    return ("x", fld, "", idx)
+
+
+def f_parse(s):
+    pos = [0]
+
+    def num():
+        st = pos[0]
+        if pos[0] < len(s) and s[pos[0]] == "-":
+            pos[0] += 1
+        while pos[0] < len(s) and s[pos[0]].isdigit():
+            pos[0] += 1
+        return int(s[st:pos[0]])
+
+    def go():
+        c = s[pos[0]]
+        pos[0] += 1
+        if c in "AOXN":
+            pos[0] += 1
+            kids = []
+            while s[pos[0]] != "]":
+                kids.append(go())
+                if s[pos[0]] == ".":
+                    pos[0] += 1
+            pos[0] += 1
+            return (c, kids)
+        fld = "v"
+        if pos[0] < len(s) and s[pos[0]] in "abc":
+            fld = s[pos[0]]
+            pos[0] += 1
+        if c == "x":
+            tc = ""
+            if pos[0] < len(s) and s[pos[0]] in "IS":
+                tc = s[pos[0]]
+                pos[0] += 1
+            idx = 0
+            if pos[0] < len(s) and s[pos[0]] == "i":
+                pos[0] += 1
+                idx = num()
+            return ("x", fld, tc, idx)
+        k = num()
+        idx = 0
+        if pos[0] < len(s) and s[pos[0]] == "i":
+            pos[0] += 1
+            idx = num()
+        return ("n", c, fld, k, idx)
+    return go()
 MAXES = [0, 1, 2, 3, 4, 50, -1, 1, 2]
 
 
@@ -34,8 +145,21 @@ def subpat(rng, nsess):
 
 
 def with_filter(rng, p, prob=0.35):
-    f = rng.choice(FILTERS) if rng.random() < prob else ""
+    f = ""
+    if rng.random() < prob:
+        f = rng.choice(FILTERS) if rng.random() < 0.5 else f_str(f_random(rng))
     return p + ("@" + f if f else "")
+
+
+def change_filter(rng, full):
+    """full = "pattern" or "pattern@filter" as last subscribed: the same pattern with a filter one attribute away"""
+    pat, _, flt = full.partition("@")
+    r = rng.random()
+    if not flt:
+        return pat + "@" + f_str(f_atom(rng)) if r < 0.8 else pat
+    if r < 0.10:
+        return pat                                          # filter dropped
+    return pat + "@" + f_str(f_neighbour(rng, f_parse(flt)))
 
 
 def uniq(xs):
@@ -96,8 +220,15 @@ class Gen:
         r = rng.random()
         have = self.subs[k]
         if have and r < 0.30:      # change the filter of (or simply repeat) existing subscriptions
-            ps = uniq([with_filter(rng, rng.choice(have), 0.7) for _ in range(rng.choice([1, 1, 2]))] +
+            ps = uniq([(change_filter(rng, self.subf[k][b]) if (b in self.subf[k] and rng.random() < 0.7) else with_filter(rng, b, 0.7))
+                       for b in [rng.choice(have) for _ in range(rng.choice([1, 1, 2]))]] +
                       ([with_filter(rng, subpat(rng, self.n))] if rng.random() < 0.4 else []))
+            seen_b, ps2 = set(), []
+            for p in ps:                                    # one SUBSCRIBE: field per path
+                if p.split("@")[0] not in seen_b:
+                    seen_b.add(p.split("@")[0])
+                    ps2.append(p)
+            ps = ps2
         else:
             ps = uniq([with_filter(rng, subpat(rng, self.n)) for _ in range(rng.choice([1, 1, 1, 2, 3]))])
         rng.shuffle(ps)
@@ -220,6 +351,15 @@ DIRECTED = [
     # quiet changes the subscriber CAN see (mirror_converges_announced): the quietly changed paths drop out of the statement,
     # everything else stays exact; a later loud change of the same node is delivered as usual
     "a;a;s:1:0:ab=6;p:0:0:a*;s:1:4:ab=7&ac=2;s:1:0:abc=1;r:1:1:abc;s:1:0:ab=9;b:1:s~4~a=1+r~1~ac;s:1:0:a=2",
+    # filter changes one attribute apart: ValueExists on another field name / type code / index, alone and inside And / Or / Xor /
+    # Nand trees, with nodes that match exactly one of the two; loud and QUIETLY (the seeded IsDeeplyEqualTo guard skipped the diff)
+    "a;a;s:1:0:p=2&q=3&r=6;p:0:0:*@xa;p:0:0:*@xb;s:1:0:p=4&q=9;p:0:0:*@xa;p:0:0:*@xa;s:1:0:p=3",
+    "a;a;a;s:2:0:p=2&q=3&r=6;p:0:0:*@xa;p:1:0:*@xa;p:0:0:*@xb;p:1:1:*@xb;s:2:0:p=4&q=9&r=1;p:1:1:*@xc;s:2:0:r=5",
+    "a;a;s:1:0:p=0&q=1&r=5&t=6;p:0:0:*@xc;p:0:0:*@xcI;p:0:0:*@xcS;p:0:0:*@xc;s:1:0:p=1&q=6",
+    "a;a;s:1:0:p=3&q=6&r=9&t=0;p:0:0:*@xb;p:0:0:*@xbi1;p:0:0:*@xb;s:1:0:p=6&q=3",
+    "a;a;s:1:0:p=2&q=3&r=6&t=7;p:0:0:*@A[xa.g1];p:0:0:*@A[xb.g1];p:0:0:*@O[xb.g6];p:0:0:*@O[xa.g6];p:0:0:*@X[xa.xb];p:0:0:*@X[xa.xc];p:0:0:*@N[xa];p:0:0:*@N[xb];s:1:0:p=3&q=2",
+    "a;a;a;s:2:0:p=2&q=3&r=6&t=7;p:0:0:*@A[xa.N[xb]];p:1:1:*@A[xa.N[xb]];p:0:0:*@A[xb.N[xb]];p:1:1:*@A[xa.N[xc]];p:0:0:*@A[xb.N[xa]];p:1:1:*@A[xb.N[xa]];s:2:0:p=3&q=4",
+    "a;a;s:1:0:p=2&q=4&r=6;p:0:0:*@ga3;p:0:0:*@gb3;p:0:0:*@gb1;p:0:0:*@eb2;p:0:0:*@eb6i1;p:0:0:*@la5;p:0:0:*@l5;s:1:0:p=9&q=0",
     # unsubscribe: the client's own pruning
     "a;a;s:1:0:ab=5&ac=6;p:0:0:a*&ab;u:0:a*;s:1:0:ab=7&ac=8;u:0:ab",
     # set then remove / remove then set across one flush; nested creation; recursive removal
@@ -342,6 +482,39 @@ def pool_case(rng):
     return ";".join(ops)
 
 
+# the "filterchange" stream: one or two subscribers keep re-subscribing the SAME paths with filters one attribute away from the
+# previous ones (now and then quietly), while a publisher's nodes carry payloads that tell the two filters apart
+def filter_case(rng):
+    nsub = rng.choice([1, 1, 2])
+    pub = nsub
+    ops = ["a"] * (nsub + 1)
+    names = ["p", "q", "r", "t", "u"]
+    ops.append("s:%d:0:%s" % (pub, "&".join("%s=%d" % (nm, rng.randrange(0, 10)) for nm in names)))
+    cur = {}
+    for k in range(nsub):
+        pats = rng.sample(["*", "p", "?", "q,r", "/H/*/*"], rng.choice([1, 1, 2]))
+        fulls = []
+        for pt in pats:
+            full = pt + "@" + f_str(f_random(rng, 1))
+            cur[(k, pt)] = full
+            fulls.append(full)
+        ops.append("p:%d:0:%s" % (k, "&".join(fulls)))
+    for _ in range(rng.choice([6, 9, 12])):
+        r = rng.random()
+        if r < 0.6:
+            k, pt = rng.choice(sorted(cur.keys()))
+            full = change_filter(rng, cur[(k, pt)])
+            cur[(k, pt)] = full
+            ops.append("p:%d:%d:%s" % (k, 1 if rng.random() < 0.2 else 0, full))
+        elif r < 0.9:
+            items = grouped_items(["%s=%d" % (rng.choice(names), rng.randrange(0, 10)) for _ in range(rng.choice([1, 2, 3]))])
+            ops.append("s:%d:0:%s" % (pub, "&".join(items)))
+        else:
+            ops.append("r:%d:0:%s" % (pub, rng.choice(names)))
+    ops.append("s:%d:0:%s" % (pub, "&".join("%s=%d" % (nm, rng.randrange(0, 10)) for nm in names)))
+    return ("s|" if nsub == 1 else "x|") + ";".join(ops)
+
+
 class CHECK(vlib.Check):
     prop = "C04"
     prop_file = "Properties_C04.v"
@@ -385,6 +558,9 @@ class CHECK(vlib.Check):
             "the extracted model (streams with several subscribers -- multi, multimax, pool: the per-op NET EFFECT of each client's "
             "Messages plus the sorted BAG of everything sent instead of the Messages, because the split points depend on the iteration "
             "order of the pooled subscriber tables, which is not modelled (set-then-remove and max-items flushes are server-wide); "
+            "stream filterchange: re-subscriptions of the same path with a filter ONE attribute away from the previous one -- kind, "
+            "field name, value index, type code, operator, operand, combinator, negation, same filter re-sent; ValueExists / Int32 / And / "
+            "Or / Xor / Nand; payloads are structured Messages (fields v a b c) that tell every such pair apart; "
             "stream malformed: "
             "paths and subscription strings with empty clauses such as a trailing '/', everything compared except the mirror statement); "
             "the harness's own oracles are evaluated after every op: mirror == foreign nodes accepted by PathMatcher::MatchesPath over the "
@@ -417,6 +593,9 @@ class CHECK(vlib.Check):
         # colliding hash sums in the pool of subscriber tables (session ids are 0,1,2,.. in every case: the harness forks per case)
         for i in range(n // 5):
             out.append(("pool", "x|" + pool_case(rng)))
+        # filter changes one attribute apart (ValueExists field / type / index, comparisons, And / Or / Xor / Nand trees)
+        for i in range(n // 5):
+            out.append(("filterchange", filter_case(rng)))
         # malformed-but-accepted paths (empty clauses): model/impl correspondence plus the refcount oracle
         out.append(("malformed", "z|a;a;s:1:0:x/=1;p:0:0:x/;p:0:0:x/;u:0:x/;s:1:0:x/=2;d:0"))
         for i in range(n // 5):
